@@ -170,10 +170,10 @@ impl DiskRun {
         }
     }
 
-    fn lookups_live(&mut self) -> (Vec<i64>, Vec<u8>) {
-        let res = self.keys.clone().iter().map(|k| self.runner.store_load(*k)).collect();
+    fn lookups_live(&mut self) -> (Vec<i64>, Vec<u8>, Vec<u8>) {
+        let ra: Vec<(i64, u8)> = self.keys.clone().iter().map(|k| self.runner.store_load_age(*k)).collect();
         let claimed = self.keys.clone().iter().map(|k| self.runner.may_contains(*k) as u8).collect();
-        (res, claimed)
+        (ra.iter().map(|x| x.0).collect(), claimed, ra.iter().map(|x| x.1).collect())
     }
 
     /// Copy the partition files (optionally with the first `tear` pages of a pending write applied),
@@ -265,6 +265,11 @@ impl DiskRun {
                 }
             }
             // hold reads as well as writes (the reclaimer reads the block it reclaims)
+            // every block marked for imminent reclaim (guarded hook)
+            "probation" => {
+                self.runner.apply(op)?;
+                self.out.push(json!({"a": "mark"}));
+            }
             "gate_rw" => {
                 self.runner.gate.set_hold(true, true);
             }
@@ -310,8 +315,8 @@ impl DiskRun {
             }
             "q" => {
                 self.log_writes();
-                let (res, claimed) = self.lookups_live();
-                self.out.push(json!({"a": "q", "res": res, "claimed": claimed, "reopened": self.fresh}));
+                let (res, claimed, ages) = self.lookups_live();
+                self.out.push(json!({"a": "q", "res": res, "claimed": claimed, "ages": ages, "reopened": self.fresh}));
             }
             "snapshot" => {
                 self.old = Some(self.snapshot());
